@@ -97,11 +97,17 @@ func (monC08) AtState(x *Exec) {
 		if !ok || cur.Op != "wait" || cur.Plan < 0 || cur.Plan >= len(x.Sc.Plans) {
 			continue
 		}
-		key := fmt.Sprintf("c08rel:%d", cur.Plan)
+		// every waiter counts, but only one whose Wait was issued after a successful Start of the plan had returned is
+		// owed a terminal state (a Wait on a plan nobody has started yet returns at once, and rightly so)
+		callIdx, owed := waitIssuedAfterStart(x, g.Thread, cur.Plan)
+		key := fmt.Sprintf("c08rel:%d:%s:%d", cur.Plan, g.Thread, callIdx)
 		if x.Mem[key] != nil {
 			continue
 		}
 		x.Mem[key] = true
+		if _, rec := recoveryMode(x); !rec && !owed {
+			continue
+		}
 		v := view(cur.Plan)
 		if v == nil {
 			continue
@@ -209,6 +215,14 @@ func init() {
 				}
 			}
 			items = append(items, crashItems("C08", tier, crash)...)
+			// "before ANY waiter is released": several callers waiting, and further Start calls arriving while the plan runs
+			// (they are rejected; the waiters of the running execution must stay where they are)
+			for _, sc := range FamilyAPI(tier) {
+				switch sc.Name {
+				case "api-conc-start,wait|start", "api-conc-start,wait|wait", "api-conc-start,start|wait", "api-conc-start,wait|start,wait", "api-conc-start,wait|plan,start":
+					items = append(items, exploreCap("C08", sc, b+1, true, 60))
+				}
+			}
 			// a continuous-check run in flight when its scope fails by another route: the terminal state must still
 			// be the last thing written before the waiter is released
 			for _, sc := range FamilyCont(tier) {
@@ -219,4 +233,32 @@ func init() {
 			return items
 		},
 	})
+}
+
+// waitIssuedAfterStart looks up the current wait call of an API thread (its index in the thread's script) and whether a
+// successful Start of the plan had returned before that call was issued.
+func waitIssuedAfterStart(x *Exec, thread string, plan int) (callIdx int, after bool) {
+	w := x.W
+	w.mu.Lock()
+	evs := w.Events[:len(w.Events):len(w.Events)]
+	w.mu.Unlock()
+	callIdx = -1
+	issued := -1
+	for i := len(evs) - 1; i >= 0; i-- {
+		e := &evs[i]
+		if e.Kind == "API" && e.Thread == thread && e.Out == fmt.Sprintf("wait(P%d)", plan) {
+			callIdx, issued = e.N, i
+			break
+		}
+	}
+	if issued < 0 {
+		return callIdx, false
+	}
+	for i := 0; i < issued; i++ {
+		e := &evs[i]
+		if e.Kind == "APIRET" && e.Err == "" && e.Out == fmt.Sprintf("start(P%d)", plan) {
+			return callIdx, true
+		}
+	}
+	return callIdx, false
 }
